@@ -250,6 +250,20 @@ func runC10(col *Collector, tier string, seed int64) {
 					s.vals[i] = fmt.Sprintf("%c-%s", 'a'+byte(r*5), varLevels[i])
 				}
 				vs = append(vs, s)
+				// the same case with an EMPTY value at the highest defining level: defined, so it hides the levels below
+				top := -1
+				for i := 3; i >= 0; i-- {
+					if mask&(1<<uint(i)) != 0 && (stage || varLevels[i] != "stage") {
+						top = i
+						break
+					}
+				}
+				if top >= 1 && mask&(mask-1) != 0 && ord == 0 {
+					e := s
+					e.vals = append([]string(nil), s.vals...)
+					e.vals[top] = ""
+					vs = append(vs, e)
+				}
 			}
 		}
 	}
